@@ -38,7 +38,8 @@ Inductive prog :=
 | PRenew (async : bool)
 | PManage
 | PClean (interval : bool)
-| PAri (newer : bool).
+| PAri (newer : bool)
+| PAcct (cb : bool).       (* newACMEClientWithAccount; cb: NewAccountFunc configured *)
 
 (** configuration of a request.  [lk], [pk], [vk], [idn] are the classes of: the lock key
     ("issue_cert_"+name, raw), the storage name used by the pre-check and by key reuse
@@ -52,7 +53,7 @@ Record tcfg := TCfg {
   c_issdue : bool      (* certificates this request's issuer hands out are already due *)
 }.
 
-Inductive opk := OpObtain | OpRenew | OpClean | OpAri.
+Inductive opk := OpObtain | OpRenew | OpClean | OpAri | OpAcct.
 Inductive phase := Ph0 | PhO | PhR.   (* manage: first load / after obtain / after renew *)
 
 Inductive pc :=
@@ -73,6 +74,11 @@ Inductive pc :=
 | PMLd (ph : phase) (j : kind) | PMOcsp (ph : phase) | PMEmit (ph : phase)
 | PCLoad | PCBody | PCStore
 | PALoad1 | PAGet | PALoad2 | PAStore
+| PQLd (lk : bool) (j : kind)   (* account: Load registration (KMeta) then key (KKey); before / under the lock *)
+| PQCb                          (* NewAccountFunc callback *)
+| PQCa (r : nat) (a : nat)      (* request to the CA: 0 directory, 1 newNonce, 2 newAccount; attempt a (acmez retries twice) *)
+| PQSv (j : kind)               (* saveAccount = storeTx: Store registration (KMeta) then key (KKey) *)
+| PQRb                          (* storeTx rollback: Delete registration *)
 | PDone (r : result).
 
 Record thread := Thread {
@@ -90,8 +96,9 @@ Record thread := Thread {
 Inductive op :=
 | OExists (k : skey) | OLoad (k : skey) | OStore (k : skey) | ODelete (k : skey)
 | OLoadOcsp | OLock (l : nat) | OAcq (l : nat) | OUnlock (l : nat)
-| OEmit (e : nat)        (* 0 cert_obtaining 1 cert_obtained 2 cert_failed 3 cached_managed_cert *)
-| OIssS (i : nat) | OIssE (i : nat) | OAriGet | OOther.
+| OEmit (e : nat)        (* 0 cert_obtaining 1 cert_obtained 2 cert_failed 3 cached_managed_cert 4 NewAccountFunc *)
+| OIssS (i : nat) | OIssE (i : nat) | OAriGet | OOther
+| OCa (r : nat).          (* HTTP request to the ACME server (through the issuer's HTTPProxy callback) *)
 
 (** outcome as logged by the double: 0 ok/true, 1 not found/false, 2 error, 3 panic *)
 Record ev := Ev { e_tid : nat; e_op : op; e_out : nat }.
@@ -174,6 +181,7 @@ Definition entry (c : tcfg) : pc * opk :=
   | PManage => (PMLd Ph0 KKey, OpObtain)
   | PClean _ => (PLockCall, OpClean)
   | PAri _ => (PLockCall, OpAri)
+  | PAcct _ => (PQLd false KMeta, OpAcct)
   end.
 Definition body_start (th : thread) : pc :=
   match cur th with
@@ -181,6 +189,7 @@ Definition body_start (th : thread) : pc :=
   | OpRenew => PLd KKey
   | OpClean => match c_prog (cfg th) with PClean true => PCLoad | _ => PCBody end
   | OpAri => PALoad1
+  | OpAcct => PQLd true KMeta
   end.
 
 (** the obtain/renew/clean/ari operation returns [r] to its caller *)
@@ -202,7 +211,9 @@ Definition after_attempt (th : thread) (e : aerr) : thread :=
 Definition locked (p : pc) : bool :=
   match p with
   | PRe _ | PLd _ | PEmit1 | PReuse | PIssS | PIssE | PEmitF _ | PSave _ | PRoll _ | PEmit2 | PWait
-  | PUnlock _ | PCLoad | PCBody | PCStore | PALoad1 | PAGet | PALoad2 | PAStore => true
+  | PUnlock _ | PCLoad | PCBody | PCStore | PALoad1 | PAGet | PALoad2 | PAStore
+  | PQCb | PQCa _ _ | PQSv _ | PQRb => true
+  | PQLd lk _ => lk
   | _ => false
   end.
 
@@ -235,6 +246,14 @@ Definition fresh_key (th : thread) (s : shared) : thread * shared :=
   (set_nk th (nkid s), Shared (sto s) (lks s) (ncid s) (S (nkid s))).
 Definition with_sto (s : shared) (f : skey -> option value) : shared := Shared f (lks s) (ncid s) (nkid s).
 Definition with_lks (s : shared) (l : nat -> option nat) : shared := Shared (sto s) l (ncid s) (nkid s).
+
+(** account registration: what follows the reload under the lock when the account is still new *)
+Definition acct_ca (th : thread) : thread :=
+  (* a cancelled context: no request is sent.  The first request is newNonce: acmez caches the
+     directory of a CA process-wide (12 h), the harness warms that cache *)
+  if canc th then set_pc th (PUnlock RErr) else set_pc th (PQCa 1 0).
+Definition acct_register (th : thread) : thread :=
+  match c_prog (cfg th) with PAcct true => set_pc th PQCb | _ => acct_ca th end.
 
 (** one non-panicking operation of thread [t] at (normalised) pc [p].
     [th] is already [mark]ed; [ferr] = the double's hook returned an error;
@@ -408,6 +427,35 @@ Definition exec (t : nat) (th : thread) (s : shared) (f : fault) (p : pc) : opti
       else Some (set_pc th (PUnlock ROk),
                  with_sto s (sput (sto s) k (Some (VMetaA (match sto s k with Some (VMeta x) | Some (VMetaA x) => x | _ => 0 end)))),
                  E (OStore k) 0)
+  | PQLd lk j =>
+      (* getAccount: loadAccount = Load registration, Load key; not found => a new account (empty status) *)
+      let k := SK (c_vk c) j in
+      if bad then Some ((if lk then set_pc th (PUnlock RErr) else fin_op th RErr), s, E (OLoad k) 2)
+      else match sto s k with
+           | None => Some ((if lk then acct_register th else set_pc th PLockCall), s, E (OLoad k) 1)
+           | Some _ =>
+               Some (match j with
+                     | KMeta => set_pc th (PQLd lk KKey)
+                     | _ => if lk then set_pc th (PUnlock ROk) else fin_op th ROk     (* already registered *)
+                     end, s, E (OLoad k) 0)
+           end
+  | PQCb =>
+      if ferr then Some (set_pc th (PUnlock RErr), s, E (OEmit 4) 2)
+      else Some (acct_ca th, s, E (OEmit 4) 0)
+  | PQCa r a =>
+      if canc th then Some (set_pc th (PUnlock RErr), s, E (OCa r) (if ferr then 2 else 0))   (* cancelled at this request *)
+      else if ferr then
+        Some (set_pc th (match a with 0 | 1 => PQCa r (S a) | _ => PUnlock RErr end), s, E (OCa r) 2)   (* acmez: 3 attempts *)
+      else Some (set_pc th (match r with 0 => PQCa 1 0 | 1 => PQCa 2 0 | _ => PQSv KMeta end), s, E (OCa r) 0)
+  | PQSv j =>
+      let k := SK (c_vk c) j in
+      if bad then Some (set_pc th (match j with KMeta => PUnlock RErr | _ => PQRb end), s, E (OStore k) 2)
+      else Some (set_pc th (match j with KMeta => PQSv KKey | _ => PUnlock ROk end),
+                 with_sto s (sput (sto s) k (Some (match j with KMeta => VMeta 0 | _ => VKey 0 end))), E (OStore k) 0)
+  | PQRb =>
+      let k := SK (c_vk c) KMeta in
+      if bad then Some (set_pc th (PUnlock RErr), s, E (ODelete k) 2)
+      else Some (set_pc th (PUnlock RErr), with_sto s (sput (sto s) k None), E (ODelete k) 0)
   end.
 
 (** the operation a thread performs at pc [p] (for the event of a panicking call) *)
@@ -428,6 +476,8 @@ Definition op_at (t : nat) (th : thread) (p : pc) : option op :=
   | PCLoad => Some (OLoad SLast) | PCBody => Some OOther | PCStore => Some (OStore SLast)
   | PALoad1 | PALoad2 => Some (OLoad (SK (c_vk c) KMeta)) | PAGet => Some OAriGet
   | PAStore => Some (OStore (SK (c_vk c) KMeta))
+  | PQLd _ j => Some (OLoad (SK (c_vk c) j)) | PQCb => Some (OEmit 4) | PQCa r _ => Some (OCa r)
+  | PQSv j => Some (OStore (SK (c_vk c) j)) | PQRb => Some (ODelete (SK (c_vk c) KMeta))
   | PWait | PDone _ => None
   end.
 
